@@ -243,7 +243,20 @@ pub fn observe(verbose: bool, ase: &AsepriteFile, input_len: usize, o: &mut Vec<
         let l = ase.layer(i as u32);
         let parent = match l.parent() {
             None => "-".to_string(),
-            Some(p) => p.id().to_string(),
+            Some(p) => {
+                // the handle obtained through parent() must describe the same layer as layer(id)
+                let q = ase.layer(p.id());
+                let same = p.name() == q.name()
+                    && p.flags().bits() == q.flags().bits()
+                    && p.opacity() == q.opacity()
+                    && guard(|| p.is_visible()) == guard(|| q.is_visible())
+                    && p.parent().map(|x| x.id()) == q.parent().map(|x| x.id());
+                if same {
+                    p.id().to_string()
+                } else {
+                    format!("{}(parent-handle-differs-from-layer({}))", p.id(), p.id())
+                }
+            }
         };
         let vis = match guard(|| l.is_visible()) {
             Some(b) => (b as u8).to_string(),
